@@ -119,7 +119,8 @@ CLAIMS = [
                 "sequence hold by hold (thread_view_preserved, episode_is_one_hold, episode_accs) and respect real time (commit_order_respects_real_time). "
                 "K3 replays every recorded trace of /repo through Fine.accept as well (rule T on the real code). "
                 "STILL ASSUMED: that the block of code between lock and unlock, run atomically, computes the section function of Model/Conc.lean and "
-                "touches only locations guarded by its stripes (tied by K2/K3 section replay and the lockset monitor, not proved); helper threads are not part of Conc; "
+                "touches only locations guarded by its stripes (tied by K2 - the sections are built from the primitive functions of the sequential replica, which K2 "
+                "compares cell by cell - and by K3's lockset monitor on the code; not proved); helper threads are not part of Conc; "
                 "locked_table sections are atomic steps in Props/C06Conc.lean.",
         "design_ref": "DESIGN.md 6/C01, 12",
         "note": "Trusted: Lean kernel; hooks + baton scheduler + C++ linearizability search (K3); the scheduler yields sequentially consistent executions only; "
@@ -183,13 +184,14 @@ CLAIMS = [
                 "the abstract contents unchanged and invokes no functor; a failed rehash/reserve additionally keeps the hashpower; the doubled bucket "
                 "array is allocated before any change (repaired F3); a throwing functor keeps the preceding insertion and its own partial effect and "
                 "nothing else; after any failure every operation sequence still refines the map. PARTIAL (theorem named alloc_failure_atomic_partial): "
-                "lock-vector / list-node / helper-thread allocations, throwing equality and throwing element constructors are not fault points of the "
+                "lock-vector / list-node / helper-thread allocations, helper-thread creation, throwing equality and throwing element constructors are not fault points of the "
                 "model; K5 enumerates them on the implementation: for every (state, operation) it re-runs the operation once per reachable allocation "
                 "index k in a forked child on a copy and checks exception kind, contents, hashpower, structural scan, size(), lock probe on every lock "
                 "array, usability, byte and object balance after destruction. Open findings F4 (failed rebuild leaves moved-from elements) and F11 "
                 "(copy assignment not failure-atomic) are reported as KNOWN-FINDING.",
         "design_ref": "DESIGN.md 6/C07, 8, 12",
-        "note": "Trusted: Lean kernel; K5 harness (fork per trial, counting allocator, instrumented types). Helper threads > 0 not exercised (F10: bad_alloc inside noexcept code terminates).",
+        "note": "Trusted: Lean kernel; K5 harness (fork per trial, counting allocator, instrumented types, interposed pthread_create). Scenarios with 1-3 helper threads sweep "
+                "allocation failures and failures to create the k-th helper thread, also right after doublings that deferred their migration (F10, F13 found this way and fixed).",
     },
     {
         "property_id": "C08",
